@@ -1,5 +1,4 @@
-import QV.C02.LemmasTop
-import QV.C02.LemmasKinds2
+import QV.C02.LemmasSubset
 /-!
 # C02 — parsed programs print to text that re-parses to the same program
 
@@ -33,33 +32,92 @@ only (every accepted text is run through the real pipeline AND the model, which 
 namespace QV.C02
 open QV QV.Tok QV.Ast QV.Parse QV.Print QV.ExprPrint
 
-/-- the per-kind round-trip lemmas, dispatched: every `Parsed` instruction of a proved kind round-trips to
-itself at every depth budget -/
-theorem rt_of_provedKind (F : NumFmt) (d : Nat) (i : Instruction) (hp : parsedInstr i = true)
-    (hk : provedKind i = true) : RT F d i i := by
-  cases i with
-  | arithmetic a => exact rt_arithmetic F d a hp
-  | binaryLogic a => exact rt_binaryLogic F d a hp
-  | comparison a => exact rt_comparison F d a hp
-  | convert a => exact rt_convert F d a
-  | exchange a => exact rt_exchange F d a
-  | move a => exact rt_move F d a hp
-  | load a => exact rt_load F d a
-  | store a => exact rt_store F d a hp
-  | unaryLogic a => exact rt_unaryLogic F d a
-  | halt => exact rt_halt F d
-  | nop => exact rt_nop F d
-  | wait => exact rt_wait F d
-  | jump a => exact rt_jump F d a hp
-  | jumpWhen a => exact rt_jumpWhen F d a hp
-  | jumpUnless a => exact rt_jumpUnless F d a hp
-  | label a => exact rt_label F d a hp
-  | «include» a => exact rt_include F d a
-  | declaration a => exact rt_declaration F d a
-  | fence a => exact rt_fence F d a hp
-  | reset a => exact rt_reset F d a hp
-  | measurement a => exact rt_measurement F d a hp
-  | pragma a => exact rt_pragma F d a
-  | _ => simp [provedKind] at hk
+/-- **C02, proved part.**  For every list of `Parsed` instructions of the proved kinds — of any length, in any
+order, with redefinitions — the program `P = build is` serializes without error to tokens that parse back to
+a list `is'` with `build is' = build is` (the same containers: the reparsed program equals `P`), and
+serializing THAT program gives the identical token list. -/
+theorem C02_roundtrip_partial (F : NumFmt) (is : List Instruction)
+    (hp : ∀ i ∈ is, parsedInstr i = true) (hk : ∀ i ∈ is, provedKind i = true) :
+    ∃ ts, printProgramTokens F (build is).listing = .ok ts ∧
+      ∃ is', parseProgram ts = .ok is' [] ∧ build is' = build is ∧
+        printProgramTokens F (build is').listing = .ok ts := by
+  have hL : ∀ i ∈ (build is).listing, i ∈ is := fun i hi => mem_listing_build hi
+  have herr : firstErrList (build is).listing = none :=
+    firstErrList_none _ (fun i hi => firstErr_none_of_provedKind i (hp i (hL i hi)) (hk i (hL i hi)))
+  have hblock : ∀ i ∈ (build is).listing, blockOk (toks F i) = true := by
+    intro i hi
+    obtain ⟨t, r, ht, _⟩ := toks_head F i
+    exact blockOk_of_noNL _ (by rw [ht]; simp)
+      (fun t ht h => noNL_of_provedKind F i (hk i (hL i hi)) (h ▸ ht))
+  have hcollapse : collapseNL (programRaw F (build is).listing) = programRaw F (build is).listing :=
+    collapseNL_of_noAdj _ (noAdjNL_programRaw F _ hblock).1
+  have hprint : printProgramTokens F (build is).listing = .ok (programRaw F (build is).listing) := by
+    simp [printProgramTokens, herr, hcollapse]
+  refine ⟨_, hprint, (build is).listing, ?_, build_listing_build is, ?_⟩
+  · have := parseProgram_programRaw F id (build is).listing
+      (fun i hi => rt_of_provedKind F _ i (hp i (hL i hi)) (hk i (hL i hi)))
+    simpa using this
+  · rw [build_listing_build]; exact hprint
+
+/-- non-vacuity: a program with a redefinition, reordering, negative and real literal operands -/
+example : ∃ ts, printProgramTokens stdFmt (build
+      [.move ⟨⟨"ro", 0⟩, .literalReal 0x3FF0000000000000⟩,
+       .declaration ⟨"ro", ⟨.bit, 1⟩, none⟩,
+       .arithmetic ⟨.add, ⟨"a", 1⟩, .literalInteger (-2)⟩,
+       .declaration ⟨"ro", ⟨.real, 2⟩, some ⟨"x", [⟨1, .bit⟩]⟩⟩,
+       .measurement ⟨none, .fixed 0, some ⟨"ro", 0⟩⟩]).listing = .ok ts ∧
+    ∃ is', parseProgram ts = .ok is' [] :=
+  let ⟨ts, h1, is', h2, _⟩ := C02_roundtrip_partial stdFmt _ (by decide) (by decide)
+  ⟨ts, h1, is', h2⟩
+
+/-! ## the three classes for which the full statement is false of the code (known findings)
+
+Each witness is in the image of the parser (`…_parsed`: the tokens of the quoted text parse to it) and
+satisfies `Parsed`; the tokens of its printed form do not parse back (`printsAndReparses = false`), resp. the
+used-qubit cache of the reparsed program differs. -/
+
+/-- `RAW-CAPTURE 0 "ro" (2) i[0]` -/
+def rawCaptureWitness : Instruction :=
+  .rawCapture ⟨true, ⟨"ro", [.fixed 0]⟩, .number ⟨0x4000000000000000, 0⟩, ⟨"i", 0⟩⟩
+
+/-- `DEFCIRCUIT C q:\n    DEFCAL X q:\n    NOP\n    WAIT` -/
+def nestedCircuitWitness : Instruction :=
+  .circuitDefinition "C" [] ["q"] [.calibrationDefinition ⟨[], "X", [], [.variable "q"]⟩ [.nop, .wait]]
+
+/-- `DEFCAL X 0:\n    Y 5\nDEFCAL X 0:\n    Y 6` -/
+def redefinedCalibrationWitness : List Instruction :=
+  [.calibrationDefinition ⟨[], "X", [], [.fixed 0]⟩ [.gate ⟨"Y", [], [.fixed 5], []⟩],
+   .calibrationDefinition ⟨[], "X", [], [.fixed 0]⟩ [.gate ⟨"Y", [], [.fixed 6], []⟩]]
+
+/-- does the listing print, and do the printed tokens parse? -/
+def printsAndReparses (L : List Instruction) : Bool :=
+  match printProgramTokens stdFmt L with
+  | .ok ts => (parseProgram ts).isOk
+  | .error _ => false
+
+theorem rawCaptureWitness_parsed :
+    (match parseProgram [.command .rawCapture, .integer 0, .string "ro".toList, .lParenthesis, .integer 2,
+        .rParenthesis, .identifier "i".toList, .lBracket, .integer 0, .rBracket] with
+      | .ok [.rawCapture r] [] =>
+        decide (r = ⟨true, ⟨"ro", [.fixed 0]⟩, .number ⟨0x4000000000000000, 0⟩, ⟨"i", 0⟩⟩)
+      | _ => false) = true := by decide
+
+/-- known finding C02/raw-capture-region-named-i: the printed `RAW-CAPTURE 0 "ro" 2 i[0]` does not parse -/
+theorem C02_counterexample_rawCapture :
+    parsedInstr rawCaptureWitness = true ∧ printsAndReparses [rawCaptureWitness] = false := by
+  decide
+
+/-- known finding C02/nested-definition-in-defcircuit: the re-indented nested DEFCAL does not parse -/
+theorem C02_counterexample_nestedCircuit :
+    parsedInstr nestedCircuitWitness = true ∧ printsAndReparses [nestedCircuitWitness] = false := by
+  decide
+
+/-- known finding C02/reparsed-unequal-after-redefined-calibration: the text round-trips, but qubit 5 is in
+the used-qubit cache of the parsed program and not in that of the reparsed one -/
+theorem C02_counterexample_redefinedCalibration :
+    printsAndReparses (build redefinedCalibrationWitness).listing = true ∧
+      Qubit.fixed 5 ∈ usedQubits redefinedCalibrationWitness ∧
+      Qubit.fixed 5 ∉ usedQubits (build redefinedCalibrationWitness).listing := by
+  decide
 
 end QV.C02
